@@ -155,6 +155,15 @@ func (q *vfQ) Write(p []byte) (int, error) {
 	return n, err
 }
 
+// CutAfterNext arranges for the stream to end (with err, or EOF when nil) right behind the next extra bytes
+// written: everything accepted so far plus those bytes is delivered completely, nothing after it.
+func (q *vfQ) CutAfterNext(extra int, err error) {
+	q.mu.Lock()
+	q.cut = int64(len(q.tap) + extra)
+	q.cutErr = err
+	q.mu.Unlock()
+}
+
 func (q *vfQ) closeWrite() {
 	q.mu.Lock()
 	q.wclosed = true
